@@ -70,6 +70,12 @@ def full_dump(conn, names):
 class StateRecorder(lib.Recorder):
     names = None
 
+    def __init__(self, *a):
+        super().__init__(*a)
+        # the shadow database is kept (the history generators ask it which ids exist) but its
+        # per-statement digests are the business of the main stream, not of this one
+        self.shadow.dumper = lambda db: 0
+
     def observe(self, kind):
         dv = self.c2.execute("PRAGMA data_version").fetchone()[0]
         if dv != getattr(self, "_dv", None):       # some commit became visible since the last dump
@@ -247,45 +253,82 @@ def compare(r, out):
 
 
 def run(ck, sq, Event, histories, replay_obj, quick):
-    """histories: the (name, lazy, history) list of the C06 check.  Random histories are
-    generator functions drawing from ck.rng, so they are re-run from the concrete steps the
-    main stream executed (`steps_of`: name -> steps)."""
-    ok = ck.prove(props_file="Props/C06State.v", extra_targets=["Model/CrashStoreDriver.v"])
+    """histories: (name, lazy, concrete steps) - what the main stream of the C06 check
+    executed (its random histories are generators drawing from ck.rng; here they are re-run
+    from the concrete steps, so both streams see the same calls)."""
+    ck.prove(props_file="Props/C06State.v", extra_targets=["Model/CrashStoreDriver.v"])
     ok2, out = common.build_driver("C06State", ck.log, "ExC06State")
     if not ok2:
         ck.broken.append("state model no longer extracts/compiles: " + out[-300:])
         return
-    runs, wire = [], []
-    for name, lazy, h in histories:
-        try:
-            r = run_history(sq, Event, lazy, h)
-        except Exception as ex:
-            ck.disagreement("state-model", f"history {name} could not be run: {type(ex).__name__}: {ex}", {"history": name})
+    limit = len(histories) if quick else 170 + 400       # thorough: the corpus and the first 400 random histories
+    if len(histories) > limit:
+        ck.count("state:histories-not-replayed-in-this-stream", len(histories) - limit)
+        histories = histories[:limit]
+    BATCH = 40                                           # bounds the size of the driver's answer held in memory
+    for at in range(0, len(histories), BATCH):
+        runs, wire = [], []
+        for name, lazy, h in histories[at:at + BATCH]:
+            try:
+                r = run_history(sq, Event, lazy, h)
+            except Exception as ex:
+                ck.disagreement("state-model", f"history {name} could not be run: {type(ex).__name__}: {ex}", {"history": name})
+                continue
+            r.name = name
+            runs.append(r)
+            wire.append(wire_case(r))
+            ck.count("state:histories")
+            ck.count("state:crash-points-compared", len(r.rec.obs))
+            ck.count("state:distinct-durable-dumps", getattr(r.rec, "n_dumps", 0))
+            ck.count("state:calls-that-raised", sum(1 for c in r.rec.calls if c["outcome"]))
+        if not runs:
             continue
-        r.name = name
-        runs.append(r)
-        wire.append(wire_case(r))
-        ck.count("state:histories")
-        ck.count("state:crash-points-compared", len(r.rec.obs))
-        ck.count("state:distinct-durable-dumps", getattr(r.rec, "n_dumps", 0))
-        ck.count("state:calls-that-raised", sum(1 for c in r.rec.calls if c["outcome"]))
-    if not runs:
-        return
-    outs = common.run_driver("C06State", wire)
-    for r, o in zip(runs, outs):
-        ck.evaluations += 1
-        if o == [-999] or o == [-998]:
-            ck.disagreement("state-model", f"{r.name}: the driver could not decode the case", replay_obj(r))
-            continue
-        bad = compare(r, o)
-        if bad:
-            ck.count("state:histories-disagreeing")
-            if ck.dist["state:histories-disagreeing"] <= 4:      # leave room for the other streams' reports
-                ck.disagreement("state-model", f"{r.name}: {bad[0]}", replay_obj(r, {"disagreements": bad[:3]}))
+        outs = common.run_driver("C06State", wire)
+        for r, o in zip(runs, outs):
+            ck.evaluations += 1
+            if o == [-999] or o == [-998]:
+                ck.disagreement("state-model", f"{r.name}: the driver could not decode the case", replay_obj(r))
+                continue
+            bad = compare(r, o)
+            if bad:
+                ck.count("state:histories-disagreeing")
+                if ck.dist["state:histories-disagreeing"] <= 4:      # leave room for the other streams' reports
+                    ck.disagreement("state-model", f"{r.name}: {bad[0]}", replay_obj(r, {
+                        "disagreements": bad[:3],
+                        "rerun_state": f"PYTHONPATH={common.REPO}:{common.VERIF} /venv/bin/python -m harness.c06_state "
+                                       f"'{json.dumps({'lazy': r.lazy, 'steps': r.steps})}'"}))
     ck.assumptions.append(
-        "state stream: every crash point observed (before every write statement, after every commit step, after "
-        "every call) of " + ("the deterministic corpus and of the random histories" if not quick else
-                             "the deterministic corpus and of the random histories of this run") +
-        " is compared as a FULL table dump of a second connection (buckets, events, sqlite_sequence) with the "
-        "[durable] tables of the extracted Model/CrashStore.v; bucket ids, strings and datastr cells are compared "
-        "through labels (datastr {\"n\": i} = i)")
+        "state stream (Model/CrashStore.v): every crash point observed (before every write statement, after every "
+        "commit step, after every call) of " +
+        ("the histories of this run" if quick else "the corpus and the first 400 random histories of this run") +
+        " is compared as a FULL table dump of a second connection (buckets rows, events rows, sqlite_sequence) with "
+        "the [durable] tables of the extracted model after the same number of micro-steps; bucket ids, strings and "
+        "datastr cells are compared through labels (datastr {\"n\": i} = i); no sampling of crash points")
+
+
+def main():
+    """Replay one concrete history against the state model:
+    python -m harness.c06_state '{"lazy": true, "steps": [[dt_us, tick_us, [call, args...]], ...]}'
+    (needs build/C06State/driver, i.e. a previous ./run.sh quick C06 or ./setup.sh)"""
+    import sys
+    arg = sys.argv[1]
+    case = json.load(open(arg)) if not arg.lstrip().startswith("{") else json.loads(arg)
+    while "history" in case or "replay" in case:
+        case = case.get("history") or case["replay"]
+    common.setup_impl_env()
+    import aw_datastore.storages.sqlite as sq
+    from aw_core.models import Event
+    r = run_history(sq, Event, case["lazy"], case["steps"])
+    out = common.run_driver("C06State", [wire_case(r)])[0]
+    bad = ["the driver could not decode the case"] if out in ([-999], [-998]) else compare(r, out)
+    print(f"{len(r.steps)} calls, {len(r.rec.micro)} micro-steps, {len(r.rec.obs)} crash points compared with the model's durable tables")
+    for b in bad:
+        print("DIFFERS", b)
+    if not bad:
+        print("state model: agrees at every crash point")
+    return 1 if bad else 0
+
+
+if __name__ == "__main__":
+    import sys
+    sys.exit(main())
